@@ -180,7 +180,7 @@ def all_jobs():
     THRW = '_ZN4bloc12RuntimeError9throwableENS_6EXC_RTE'
     for fn, mg, uw in (('docatch', '_ZNK4bloc14BEGINStatement7docatchERKNS_12RuntimeErrorERNS_7ContextE', 18), ('doit', '_ZNK4bloc14BEGINStatement4doitERNS_7ContextE', 18)):
         J.append(dict(id='stmt_begin_' + fn, src='blocc/statement_begin.cpp', contract='stmt_begin.c', enforce=mg, roots=[mg], replace=[FINDT, THRW],
-                      cut=[RUN, FINDT, THRW], props=['C01', 'C07'], pretty='bloc::BEGINStatement::' + fn, canaries=['normal', 'exceptional'], defines=['JOB_' + fn.upper()],
+                      cut=[RUN, FINDT, THRW], props=['C01', 'C07', 'C06'], pretty='bloc::BEGINStatement::' + fn, canaries=['normal', 'exceptional'], defines=['JOB_' + fn.upper()],
                       unwind=uw, unwind_why='iteration over the handler list, modelled by an array of at most 3 `when` clauses; comparison of constant C strings of at most 15 characters (complete)', bounded_inputs=True,
                       transparent=[PAIR_SE], structs=DEFAULT_STRUCTS + [STD_STRING, VEC_CHAR, 'bloc::Expression', 'bloc::Context', 'bloc::Executable', 'bloc::BEGINStatement']))
     for fn, mg in (('throwable', THRW), ('findThrowable', FINDT)):
